@@ -116,6 +116,21 @@ impl<'a> Lexer<'a> {
     }
 
     fn number(&mut self, start: usize, c: char) -> TokenKind {
+        // an identifier may start with digits (e.g. `4x`, `0b`, `0xZ`), unless it reads as a
+        // hexadecimal or binary number
+        if c.is_ascii_digit() {
+            let mut rest = self.s.after().chars().skip_while(char::is_ascii_digit);
+            let is_identifier = match (rest.next(), rest.next()) {
+                (Some('x'), Some(c2)) if c2.is_ascii_hexdigit() => false,
+                (Some('b'), Some('0' | '1')) => false,
+                (Some(c1), _) => is_identifier_start(c1),
+                (None, _) => false,
+            };
+            if is_identifier {
+                return self.identifier(start);
+            }
+        }
+
         match self.s.peek() {
             Some(c2) if c2.is_ascii_digit() => {}
             _ => match c {
